@@ -85,15 +85,46 @@ fn check_f32(m: u32, r: &mut Report, ranges: &[(f32, f32)]) {
     }
 }
 
+/// Boundary values of the raw 64-bit output: all ones, single bits, runs of ones from either end, and their complements.
+fn special_outputs() -> Vec<u64> {
+    let mut v = vec![u64::MAX, 1, u64::MAX - 1, 1 << 63, (1 << 63) - 1, (1 << 41) - 1, 1 << 41, !((1u64 << 41) - 1), 0x8000_0000, 0x7FFF_FFFF, 0xFFFF_FFFF, 0x1_0000_0000];
+    for k in 0..64 { v.push(1 << k); v.push(!(1u64 << k)); v.push(u64::MAX >> k); v.push(u64::MAX << k); }
+    v.retain(|x| *x != 0);
+    v.sort(); v.dedup();
+    v
+}
+
 fn check_bernoulli(m: u32, r: &mut Report) {
     let y = ((m as u64) << 41) | 0x1234567;
+    check_bernoulli_out(y, r)
+}
+fn check_bernoulli_out(y: u64, r: &mut Report) {
+    let m = mantissa_of(y);
     let s = state_for_output(y);
     for p in [-1.0f32, 0.0, -0.0, 1e-9, 0.5, 1.0, 2.0, f32::INFINITY, f32::NEG_INFINITY] {
         r.eval();
         let got = Bernoulli(p).sample(&mut Xorshift64(s));
         let bad = (p <= 0.0 && got) || (p >= 1.0 && !got);
-        if bad { r.violation(format!("bernoulli|p={p}|m={m:#x}"), format!("Bernoulli({p}) with mantissa {m:#x} returned {got}"), obj! {"kind" => "bern", "m" => m}); }
+        if bad { r.violation(format!("bernoulli|p={p}|out={y:#x}"), format!("Bernoulli({p}) on generator output {y:#x} (mantissa {m:#x}) returned {got}"), obj! {"kind" => "bernout", "y" => format!("{y:#x}")}); }
         else if p > 0.0 && p < 1.0 { r.nontrivial(); }
+    }
+}
+
+/// every scalar distribution on a boundary raw output
+fn check_raw_out(y: u64, r: &mut Report) {
+    check_bernoulli_out(y, r);
+    let s = state_for_output(y);
+    for (a, b) in [(0.0f32, 1.0f32), (-1.0, 1.0), (1000.0, 1001.0), (-5.0, -4.999), (0.1, 0.3), (255.0, 256.0)] {
+        r.eval();
+        let v = Uniform(a..b).sample(&mut Xorshift64(s));
+        if !(v >= a && v < b) { r.violation(format!("uniform-f32-range|raw-output|{a}..{b}|out={y:#x}"), format!("Uniform({a}..{b}) on generator output {y:#x} returned {v}"), obj! {"kind" => "rawout", "y" => format!("{y:#x}")}); }
+    }
+    for (a, b) in [(1i32, 7i32), (-123, 456), (0, 1), (i32::MIN, i32::MIN + 3), (0, i32::MAX), (i32::MIN, -1), (i32::MAX - 2, i32::MAX)] {
+        r.eval();
+        match caught(|| Uniform(a..b).sample(&mut Xorshift64(s))) {
+            Ok(v) if v >= a && v < b => {}
+            other => r.violation(format!("uniform-i32-range|raw-output|{a}..{b}|out={y:#x}"), format!("Uniform({a}..{b}) on generator output {y:#x} gave {other:?}"), obj! {"kind" => "rawout", "y" => format!("{y:#x}")}),
+        }
     }
 }
 
@@ -199,6 +230,8 @@ fn replay_case(case: &J, r: &mut Report) {
     match kind {
         "f32" => check_f32(case.get("m").unwrap().as_u64().unwrap() as u32, r, &[(parse_fbits(case.get("a").unwrap()).unwrap(), parse_fbits(case.get("b").unwrap()).unwrap())]),
         "bern" => check_bernoulli(case.get("m").unwrap().as_u64().unwrap() as u32, r),
+        "bernout" => check_bernoulli_out(hexs("y"), r),
+        "rawout" => check_raw_out(hexs("y"), r),
         "i32" => check_i32(case.get("lo").unwrap().as_u64().unwrap() as u32, r, &[(case.get("a").unwrap().as_i64().unwrap() as i32, case.get("b").unwrap().as_i64().unwrap() as i32)]),
         "state2d" => check_2d(hexs("s"), r, "replay"),
         "state3d" => check_3d(hexs("s"), r, "replay"),
@@ -244,6 +277,10 @@ fn main() {
     rep.merge(par_range(&cfg, 1 << 23, |m, r| check_f32(m as u32, r, &franges)));
     // (c) Bernoulli
     rep.merge(par_range(&cfg, 1 << 23, |m, r| check_bernoulli(m as u32, r)));
+    // boundary raw outputs (all ones, single bits, runs of ones ...) through every scalar distribution
+    let sp = special_outputs();
+    rep.set("special_raw_outputs", sp.len() as u64);
+    rep.merge(par_range(&cfg, sp.len() as u64, |i, r| check_raw_out(sp[i as usize], r)));
     // (b) integer ranges over low words
     let iranges: Vec<(i32, i32)> = vec![(1, 7), (-123, 456), (0, 1), (i32::MIN, i32::MIN + 3), (0, i32::MAX), (i32::MIN, -1), (5, 6), (-7, -1), (i32::MAX - 2, i32::MAX), (-1 << 30, (1 << 30) - 1)];
     if quick {
@@ -328,6 +365,6 @@ fn main() {
     }
     rep.sample(0, || obj! {"f32" => "mantissa 0x7fffff, range 1000..1001", "i32" => "low word 0x80000000, range -2147483648..-2147483645", "pair_state" => "state with mantissas (0x400000,0x400000) from GF(2) solve", "orbit_seed" => Xorshift64::DEFAULT_SEED});
     rep.finish(&cfg, "exploration",
-        "all 2^23 mantissas x 12 float ranges and x 9 Bernoulli p; all 2^32 low words (quick: 2^24 boundary-dense) x 10 int ranges; multi-component distributions on GF(2)-solved states: every pair of 8 boundary mantissas x the full 2^18 solution space, boundary x all 2^23 second mantissas, boundary pairs x all top-18-bit third mantissas, plus 2^20 (2^24) spread states; composite distributions vs scalar draws; orbits of 1066 seeds for 2^18 (2^24) steps and 2^31 steps from the default seed (thorough): never zero, no early cycle, inverse step returns the predecessor. The 2^64-1 period clause is only bounded by enumeration; the GF(2) order certificate is supplementary algebra.",
+        "all 2^23 mantissas x 12 float ranges and x 9 Bernoulli p; ~250 boundary raw 64-bit outputs (all ones, single bits, runs of ones and complements) through every scalar distribution; all 2^32 low words (quick: 2^24 boundary-dense) x 10 int ranges; multi-component distributions on GF(2)-solved states: every pair of 8 boundary mantissas x the full 2^18 solution space, boundary x all 2^23 second mantissas, boundary pairs x all top-18-bit third mantissas, plus 2^20 (2^24) spread states; composite distributions vs scalar draws; orbits of 1066 seeds for 2^18 (2^24) steps and 2^31 steps from the default seed (thorough): never zero, no early cycle, inverse step returns the predecessor. The 2^64-1 period clause is only bounded by enumeration; the GF(2) order certificate is supplementary algebra.",
         &["harness-side inverse of the step is validated against the real next_bits on every use", "unit-length tolerance 1e-3, disk/ball tolerance 1e-6 in f64", "int ranges with representable width only"]);
 }
